@@ -42,6 +42,20 @@ def run_impl(c):
         fail = {'kind': 'tolerant-raised', 'detail': out[:300] + ' / ' + str(p)[:200]}
     elif p is None:
         fail = {'kind': 'tolerant-returned-none', 'detail': ''}
+    if not fail:
+        # the same parse through the documented entry point get_latex_nodes() must not raise either
+        try:
+            import warnings
+            with warnings.catch_warnings():
+                warnings.simplefilter('ignore')
+                w3 = parsecase.make_walker(c)
+                r3 = w3.get_latex_nodes(pos=0)
+            if not (isinstance(r3, tuple) and len(r3) == 3):
+                fail = {'kind': 'tolerant-get-latex-nodes', 'detail': 'unexpected result %r' % (r3,)}
+        except RecursionError:
+            raise
+        except Exception as e:
+            fail = {'kind': 'tolerant-raised', 'detail': 'get_latex_nodes(): %s: %s' % (type(e).__name__, str(e)[:200])}
     cs = dict(c); cs['tol'] = False
     w2, kind2, p2 = parsecase.parse(cs)
     if not fail:
